@@ -620,6 +620,37 @@ pub fn wide_registry(rng: &mut Rng) -> (Registry, u32) {
     (reg, nf)
 }
 
+/// window scope: 4-6 packages with 3-9 versions each, dependencies on version windows [lo, hi) (sometimes a point or a
+/// union of two points), a few unavailable versions: terms are narrowed step by step, candidates are rejected without a
+/// decision (unavailable, or refused after a backtrack), packages are re-prioritized several times per decision level
+pub fn window_registry(rng: &mut Rng) -> Registry {
+    let mut reg = Registry::default();
+    let np = 4 + rng.below(3) as u32;
+    let nvs: Vec<u32> = (0..np).map(|p| if p == 0 { 1 } else { 3 + rng.below(7) as u32 }).collect();
+    let window = |rng: &mut Rng, nv: u32| -> R {
+        match rng.below(8) {
+            0 => R::full(),
+            1 => R::singleton(1 + rng.below(nv as u64) as u32),
+            2 => R::singleton(1 + rng.below(nv as u64) as u32).union(&R::singleton(1 + rng.below(nv as u64) as u32)),
+            _ => { let lo = 1 + rng.below(nv as u64) as u32; let hi = lo + 1 + rng.below(nv as u64) as u32; R::between(lo, hi) }
+        }
+    };
+    for p in 0..np {
+        for v in 1..=nvs[p as usize] {
+            if p > 0 && rng.chance(1, 10) { reg.pkgs.entry(p).or_default().insert(v, None); continue; }
+            let nd = if p == 0 { 2 + rng.below(2) } else { rng.below(3) };
+            let mut ds: Vec<(u32, R)> = vec![];
+            for _ in 0..nd {
+                let q = 1 + rng.below(np as u64 - 1) as u32;
+                if q == p || ds.iter().any(|(x, _)| *x == q) { continue; }
+                ds.push((q, window(rng, nvs[q as usize])));
+            }
+            reg.pkgs.entry(p).or_default().insert(v, Some(ds));
+        }
+    }
+    reg
+}
+
 /// corpus: registries kept from earlier findings and seeded changes (they run first, under every strategy below)
 pub fn corpus() -> Vec<(Registry, (u32, u32))> {
     fn reg(items: &[(u32, u32, Option<Vec<(u32, R)>>)]) -> Registry {
@@ -644,9 +675,58 @@ pub fn corpus() -> Vec<(Registry, (u32, u32))> {
         (reg(&[(0, 1, Some(vec![(1, R::full()), (2, R::full())])), (1, 1, Some(vec![])), (1, 2, Some(vec![])),
                (2, 2, Some(vec![(2, R::singleton(2u32)), (1, R::singleton(1u32))])),
                (2, 1, Some(vec![(2, R::singleton(1u32)), (3, R::empty())]))]), (0, 1)),
+        // two picks at one decision level (an unavailable version in between) with a queued package narrowed again in the
+        // second window by a remembered incompatibility
+        ({ let mut items: Vec<(u32, u32, Option<Vec<(u32, R)>>)> = vec![
+               (0, 1, Some(vec![(1, R::between(0u32, 2u32)), (3, R::between(1u32, 10u32)), (4, R::between(1u32, 4u32))])),
+               (1, 1, Some(vec![(2, R::singleton(1u32)), (3, R::between(5u32, 10u32))])),
+               (1, 0, Some(vec![(2, R::singleton(1u32).union(&R::singleton(2u32))), (3, R::between(1u32, 5u32))])),
+               (2, 1, Some(vec![(3, R::between(1u32, 3u32))])), (2, 2, None)];
+           for v in 1..=9u32 { items.push((3, v, Some(vec![]))); }
+           for v in 1..=3u32 { items.push((4, v, Some(vec![]))); }
+           reg(&items) }, (0, 1)),
         // a self-dependency decided first, then a conflict elsewhere and a re-decision outside the self-dependency's set
         (reg(&[(0, 1, Some(vec![(1, R::full())])), (1, 2, Some(vec![(1, R::higher_than(2u32)), (2, R::singleton(5u32))])), (1, 1, Some(vec![])), (2, 1, Some(vec![]))]), (0, 1)),
     ]
+}
+
+/// a random neighbour of a registry: 1-3 small edits (another set for a dependency, a dependency removed or added, a
+/// version made unavailable / available / removed / duplicated) - the corpus registries are hard cases, their
+/// neighbourhood tends to contain the hard cases of sibling defects
+pub fn perturb(reg: &Registry, rng: &mut Rng) -> Registry {
+    let mut r = reg.clone();
+    let pk: Vec<u32> = r.pkgs.keys().copied().collect();
+    if pk.is_empty() { return r; }
+    let maxv = r.pkgs.values().flat_map(|m| m.keys().copied()).max().unwrap_or(1);
+    let set = |rng: &mut Rng| -> R {
+        let a = rng.below(maxv as u64 + 2) as u32;
+        match rng.below(7) {
+            0 => R::full(),
+            1 => R::singleton(a),
+            2 => R::singleton(a).complement(),
+            3 => R::higher_than(a),
+            4 => R::strictly_lower_than(a + 1),
+            5 => R::between(a, a + 1 + rng.below(3) as u32),
+            _ => R::singleton(a).union(&R::singleton(a + 1 + rng.below(2) as u32)),
+        }
+    };
+    for _ in 0..(1 + rng.below(3)) {
+        let p = pk[rng.below(pk.len() as u64) as usize];
+        let vs: Vec<u32> = r.pkgs[&p].keys().copied().collect();
+        if vs.is_empty() { continue; }
+        let v = vs[rng.below(vs.len() as u64) as usize];
+        let q = pk[rng.below(pk.len() as u64) as usize];
+        let m = r.pkgs.get_mut(&p).unwrap();
+        match rng.below(8) {
+            0 | 1 | 2 => { if let Some(Some(ds)) = m.get_mut(&v) { if !ds.is_empty() { let i = rng.below(ds.len() as u64) as usize; ds[i].1 = set(rng); } } }
+            3 => { if let Some(Some(ds)) = m.get_mut(&v) { if !ds.is_empty() { let i = rng.below(ds.len() as u64) as usize; ds.remove(i); } } }
+            4 => { if let Some(Some(ds)) = m.get_mut(&v) { if q != 0 && !ds.iter().any(|(x, _)| *x == q) { ds.push((q, set(rng))); } } }
+            5 => { if p != 0 { let cur = m.get(&v).cloned(); m.insert(v, match cur { Some(Some(_)) => None, _ => Some(vec![]) }); } }
+            6 => { if p != 0 && vs.len() > 1 { m.remove(&v); } }
+            _ => { if p != 0 { let d = m.get(&v).cloned().unwrap_or(None); m.insert(maxv + 1, d); } }
+        }
+    }
+    r
 }
 
 fn all_perms(n: usize) -> Vec<Vec<i64>> {
@@ -715,6 +795,21 @@ pub fn generate(out: &mut Out, rng: &mut Rng, thorough: bool, which: &str) {
                     }
                 }
             }
+        }
+        // neighbourhoods of the corpus registries
+        let nper = if thorough { 4000 / div } else { 120 };
+        for (reg0, root) in corpus() {
+            for _ in 0..nper {
+                let reg = perturb(&reg0, rng);
+                let np = reg.pkgs.keys().max().copied().unwrap_or(0) as usize + 2;
+                for (choose, prio) in strategies(np, rng, false) { run_and_emit(out, &reg, root, &choose, &prio, &[], false); }
+            }
+        }
+        let nwin = if thorough { 30000 / div } else { 2500 };
+        for _ in 0..nwin {
+            let reg = window_registry(rng);
+            let np = reg.pkgs.keys().max().copied().unwrap_or(0) as usize + 2;
+            for (choose, prio) in strategies(np, rng, false) { run_and_emit(out, &reg, (0, 1), &choose, &prio, &[], false); }
         }
         let ndeep = if thorough { 16000 / div } else { 2500 };
         for i in 0..ndeep {
